@@ -18,6 +18,7 @@ T = [
  ("aggw4", "{ p(A,W) } :- pp(A,W).\n:~ S = #sum { W,A : p(A,W) }. [S@1]\n:~ T = #sum { W,A : p(A,W), g(A) }. [T@1]", {}),
  ("arithw", "{ e(Y) } :- pe(Y).\n:~ e(Y), f(Y+1). [Y*2@[[1|Y+1]],Y-1]", {}),
  ("arithw2", "{ e(Y) } :- pe(Y).\n:~ item(X), pick(X+1), e(X). [X*2@1,X]", {}),
+ ("arithw4", "{ sel(X) } :- d(X).\n#minimize { C*2@1,X : sel(X), cost(X,C), slot(X+1) }.", {}),
  ("arithw3", "{ e(Y) } :- pe(Y).\n#minimize { X+1,Y : p(X+2,Y), e(Y) }.", {}),
  ("condw", "{ p(A,W) } :- pp(A,W).\nload(A,S) :- g(A), S = #sum { W : p(A,W) }.\nheavy(A) :- load(A,S), S > 2.\n:~ g(A), ok : load(A,S), S < 2. [1@1,A]", {}),
  ("condweak", "{ a(X) : d(X) }.\nload(P,S) :- person(P), S = #sum { W,X : a(X), w(P,X,W) }.\ntotal(T) :- T = #sum { S,P : load(P,S) }.\n:~ person(P), ok(P) : load(P,S), S < 3. [1@2,P]", {"universe_pos": {"w/3": [["0", "1"], ["0", "1"], ["1", "2"]]}}),
